@@ -384,6 +384,9 @@ pub fn run(ctx: &Ctx) -> i32 {
     let engine = NetEngine { prop };
     if let Some(path) = &ctx.replay {
         return match read_replay(path).and_then(|rf| {
+            if rf.engine == "tlsstack" {
+                return crate::props::stack::replay(ctx, "C09", &rf);
+            }
             if rf.engine == "socksrv" {
                 return replay_one(ctx, &crate::engines::socksrv::SockEngine, &rf);
             }
@@ -449,6 +452,8 @@ pub fn run(ctx: &Ctx) -> i32 {
         }
         _ => {
             total.merge(run_generated(ctx, &engine, "fault-sequences", move || c09_strategy(max_reqs.min(8)), ctx.cases(30_000, 1_500_000), 300));
+            // TLS listener: plaintext, truncated ClientHello, silent peers; then a probe
+            total.merge(crate::props::stack::leg(ctx, "C09"));
             // real TCP / Unix acceptors (real time): reset or close before accept, garbage, truncation
             let sctx = Ctx { threads: 8, ..ctx.clone() };
             total.merge(run_generated(&sctx, &crate::engines::socksrv::SockEngine, "tcp-unix-acceptors", crate::engines::socksrv::strategy, ctx.cases(400, 20_000), 60));
